@@ -318,6 +318,14 @@ func TestVfC01Listeners(t *testing.T) {
 			what = fmt.Sprintf("%s request %s (class %s)", kind, variant, class)
 			var r *Resp
 			var err error
+			// a request line beyond the listener's header limit (4096 octets): see the note at the time-out oracle below
+			bigHeader := false
+			do := func(method, qs string, body []byte, hdr map[string]string) (*Resp, error) {
+				if len(qs) > 3000 {
+					bigHeader = true
+				}
+				return c.DoRaw(method, qs, body, hdr)
+			}
 			b64 := base64.RawURLEncoding.EncodeToString(hostile)
 			if kind != "https" && rapid.IntRange(0, 3).Draw(t, "rawHTTP") == 0 {
 				// hand-written HTTP/1.1 that no well-behaved client library would send
@@ -350,44 +358,45 @@ func TestVfC01Listeners(t *testing.T) {
 			case "raw":
 				err = fmt.Errorf("raw request: no response oracle beyond the canary")
 			case "get-hostile":
-				r, err = c.DoRaw("GET", "dns="+b64, nil, map[string]string{"Accept": "application/dns-message"})
+				r, err = do("GET", "dns="+b64, nil, map[string]string{"Accept": "application/dns-message"})
 			case "get-missing":
-				r, err = c.DoRaw("GET", "x=1&&y", nil, map[string]string{"Accept": "application/dns-message"})
+				r, err = do("GET", "x=1&&y", nil, map[string]string{"Accept": "application/dns-message"})
 			case "get-segments":
 				// a query string assembled from drawn segments: empty ones, several dns parameters, other parameters first,
 				// a key without value, another spelling of the key
 				segs := rapid.SliceOfN(rapid.SampledFrom([]string{"", "", "dns=" + b64, "dns=" + b64, "dns", "dns=", "x=1", "ct=application/dns-message", "=", "dns=%zz", "DNS=" + b64, "dns=" + b64 + "=="}), 1, 5).Draw(t, "segments")
-				r, err = c.DoRaw("GET", strings.Join(segs, "&"), nil, map[string]string{"Accept": "application/dns-message"})
+				r, err = do("GET", strings.Join(segs, "&"), nil, map[string]string{"Accept": "application/dns-message"})
 				what += fmt.Sprintf(" query string %q", strings.Join(segs, "&"))
 			case "get-empty-dns":
-				r, err = c.DoRaw("GET", "dns=", nil, map[string]string{"Accept": "application/dns-message"})
+				r, err = do("GET", "dns=", nil, map[string]string{"Accept": "application/dns-message"})
 			case "get-badb64":
-				r, err = c.DoRaw("GET", "dns=***"+b64+"%00", nil, map[string]string{"Accept": "application/dns-message"})
+				r, err = do("GET", "dns=***"+b64+"%00", nil, map[string]string{"Accept": "application/dns-message"})
 			case "get-padded":
-				r, err = c.DoRaw("GET", "dns="+base64.URLEncoding.EncodeToString(append(hostile, 1)), nil, map[string]string{"Accept": "application/dns-message"})
+				r, err = do("GET", "dns="+base64.URLEncoding.EncodeToString(append(hostile, 1)), nil, map[string]string{"Accept": "application/dns-message"})
 			case "get-huge":
-				r, err = c.DoRaw("GET", "dns="+base64.RawURLEncoding.EncodeToString(bytes.Repeat([]byte{0xAB}, 90000)), nil, map[string]string{"Accept": "application/dns-message"})
+				r, err = do("GET", "dns="+base64.RawURLEncoding.EncodeToString(bytes.Repeat([]byte{0xAB}, 90000)), nil, map[string]string{"Accept": "application/dns-message"})
 			case "get-wrong-accept":
-				r, err = c.DoRaw("GET", "dns="+b64, nil, map[string]string{"Accept": "text/html"})
+				r, err = do("GET", "dns="+b64, nil, map[string]string{"Accept": "text/html"})
 			case "post-hostile":
-				r, err = c.DoRaw("POST", "", hostile, map[string]string{"Content-Type": "application/dns-message"})
+				r, err = do("POST", "", hostile, map[string]string{"Content-Type": "application/dns-message"})
 			case "post-empty":
-				r, err = c.DoRaw("POST", "", []byte{}, map[string]string{"Content-Type": "application/dns-message"})
+				r, err = do("POST", "", []byte{}, map[string]string{"Content-Type": "application/dns-message"})
 			case "post-huge":
-				r, err = c.DoRaw("POST", "", bytes.Repeat([]byte{0xCD}, 70000), map[string]string{"Content-Type": "application/dns-message"})
+				r, err = do("POST", "", bytes.Repeat([]byte{0xCD}, 70000), map[string]string{"Content-Type": "application/dns-message"})
 			case "post-wrong-ct":
-				r, err = c.DoRaw("POST", "", hostile, map[string]string{"Content-Type": "text/plain"})
+				r, err = do("POST", "", hostile, map[string]string{"Content-Type": "text/plain"})
 			case "put":
-				r, err = c.DoRaw("PUT", "", hostile, map[string]string{"Content-Type": "application/dns-message"})
+				r, err = do("PUT", "", hostile, map[string]string{"Content-Type": "application/dns-message"})
 			default:
-				r, err = c.DoRaw("DELETE", "dns="+b64, nil, nil)
+				r, err = do("DELETE", "dns="+b64, nil, nil)
 			}
 			c.Close()
 			var ne net.Error
-			if variant != "raw" && !(kind == "https" && strings.Contains(variant, "huge")) && errors.As(err, &ne) && ne.Timeout() {
+			if variant != "raw" && !(kind == "https" && (strings.Contains(variant, "huge") || bigHeader)) && errors.As(err, &ne) && ne.Timeout() {
 				// the request was complete and well-formed HTTP: 12 s (twice the proxy's own request deadline) without a
 				// response and without the connection being closed is a handler that does not come back. (Not judged for the
-				// oversized requests over HTTP/2: there the server rightly kills the connection at once - curl reports
+				// oversized requests over HTTP/2 - the two "huge" variants and any GET whose query string alone comes near the
+				// listener's 4096-octet header limit: there the server rightly kills the connection at once - curl reports
 				// "connection died" after 40 ms - and it is the Go HTTP/2 client that keeps re-dialling until its own time-out.)
 				t.Fatalf("%s: a complete HTTP request got neither a response nor a close within 12 s: %s (%v)", kind, what, err)
 			}
